@@ -65,7 +65,7 @@ MUTANTS = [
             if evaluate_cfgs(&cfg_lookup, &archetype.cfgs) == false {
                 continue;
             }
-""", ['C15']),
+""", ['C15', 'C16']),
     ('data_component_ids_shared', 'macros/src/data.rs', ["""            let mut component_ids = HashMap::new();
             let mut last_component_id = None;
 """, """        let mut last_archetype_id = None;
@@ -189,6 +189,27 @@ fn find_bind_borrow''', ['C09']),
     ('gen_any_to_direct_none', GW, '''Ok(SelectEntity::#Archetype(entity)) =>
                                 self.#archetype.to_direct(entity).map(|e| e.into()),''', '''Ok(SelectEntity::#Archetype(entity)) =>
                                 None,''', ['C09']),
+    ('cfg_collect_component_predicates_inverted', 'macros/src/parse/world.rs', '''                    if filter.insert(predicate_string) {
+                        result.push(predicate_tokens);
+                    }
+                }
+            }''', '''                    if !filter.insert(predicate_string) {
+                        result.push(predicate_tokens);
+                    }
+                }
+            }''', ['C16']),
+    ('cfg_evaluate_single_false_predicate_ignored', 'macros/src/data.rs', '''        if *cfg_lookup.get(&predicate).unwrap() == false {
+            return false;''', '''        if *cfg_lookup.get(&predicate).unwrap() == false {
+            return cfgs.len() > 1;''', ['C16']),
+    ('cfg_query_param_any_true_enables', 'macros/src/generate/query.rs', '''        if *cfg_lookup.get(&cfg.predicate.to_string()).unwrap() == false {
+            return false;
+        }
+    }
+    return true;''', '''        if *cfg_lookup.get(&cfg.predicate.to_string()).unwrap() == true {
+            return true;
+        }
+    }
+    return param.cfgs.is_empty();''', ['C16']),
     ('emit_single_match_rejected', 'macros/src/generate/query.rs', '''    if queries.is_empty() {
         Err(syn::Error::new_spanned(
             world,
